@@ -87,6 +87,12 @@ fn real_main() -> Result<i32, String> {
             let w = ws::Ws::generate()?;
             w.build(&["codecsim", "simhost"])?;
             println!("setup: built codecsim and simhost against {}", w.repo.display());
+            // everything a check would otherwise have to build on its first run: the real binary for the stub
+            // conformance batch of C18, and the interpreter build of codecsim for the Miri legs of C11 / C12
+            conformance::build_real(&w)?;
+            println!("setup: built the real slicec binary (stub conformance)");
+            codec::warm_miri(&w)?;
+            println!("setup: built codecsim for the Miri leg");
             Ok(0)
         }
         "C11" | "C12" => {
